@@ -526,6 +526,64 @@ impl Scenario for C01 {
             let at = rng.usize_below(steps.len() + 1);
             steps.splice(at..at, f);
         }
+        // WAL-backed runs, one in five: followers are restarted right after they acknowledged.
+        // l leads and commits a few entries normally; then only a bare majority (l and some
+        // followers) is connected, l proposes, the followers acknowledge, l counts the entries
+        // committed; those followers lose power and come back; l is cut off and a node of
+        // the other side stands for election. What the followers acknowledged must have
+        // been durable, or the new leader misses entries reported committed.
+        if wal && rng.chance(1, 5) {
+            let l = rng.below(nn) as u8;
+            let mut rest: Vec<u8> = (0..nn as u8).filter(|x| *x != l).collect();
+            for i in (1..rest.len()).rev() {
+                let j = rng.usize_below(i + 1);
+                rest.swap(i, j);
+            }
+            let k = (nn / 2) as usize; // followers needed beside l for a majority
+            let (side, other) = rest.split_at(k);
+            let per_round = 2 * (nn - 1);
+            let deliver = |f: &mut Vec<Step>, rng: &mut Rng, rounds: u64| {
+                for _ in 0..rounds * per_round + rng.below(per_round) {
+                    f.push(Step::Deliver { pick: 0 });
+                }
+            };
+            let mut f: Vec<Step> = vec![Step::Heal, Step::Timeout { node: l }];
+            deliver(&mut f, rng, 2);
+            for _ in 0..rng.below(5) {
+                f.push(Step::Propose { pick: 0, payload: rng.below(1 << 20) as u32 });
+                f.push(Step::Heartbeat { pick: 0 });
+                deliver(&mut f, rng, 1);
+            }
+            let mut mask = 1u8 << l;
+            for x in side {
+                mask |= 1 << x;
+            }
+            f.push(Step::Partition { mask });
+            for _ in 0..rng.range(1, 3) {
+                f.push(Step::Propose { pick: 0, payload: rng.below(1 << 20) as u32 });
+            }
+            for _ in 0..rng.range(1, 2) {
+                f.push(Step::Heartbeat { pick: 0 });
+                deliver(&mut f, rng, 1);
+            }
+            for x in side {
+                f.push(Step::Crash { node: *x, nth: None, bytes: None, cut: rng.below(4) as u8 });
+            }
+            for x in side {
+                f.push(Step::Restart { node: *x });
+            }
+            f.push(Step::Heal);
+            f.push(Step::Isolate { node: l });
+            f.push(Step::Timeout { node: *rng.pick(other) });
+            deliver(&mut f, rng, 2);
+            f.push(Step::Propose { pick: rng.below(2) as u8, payload: rng.below(1 << 20) as u32 });
+            for pick in 0..2u8 {
+                f.push(Step::Heartbeat { pick });
+            }
+            deliver(&mut f, rng, 2);
+            let at = rng.usize_below(steps.len() + 1);
+            steps.splice(at..at, f);
+        }
         // One run in ten has long logs: a follower with a stale suffix catches up with
         // a later leader over a long distance. a replicates a long common prefix and, cut
         // off, proposes a little more; b commits a long run with the others; c (or b
